@@ -118,6 +118,11 @@ class Program:
                     self.alpha_renamed += alpha.normalise(mine, self._alpha_ref, tree)
                 if not os.environ.get("NGOSA_NO_NFORM"):
                     nform.sort_operands(tree)
+        self.inlined_calls = 0
+        if not os.environ.get("NGOSA_NO_INLINE") and not os.environ.get("NGOSA_NO_ALPHA"):
+            from . import inliner
+
+            self.inlined_calls = inliner.inline_new_helpers(self)
 
     def new_functions(self) -> set[str]:
         """qualified names of functions that the reference tree (locals_ref.json) does not have: helpers that were extracted"""
